@@ -314,19 +314,26 @@ Definition h_bulk_query (cfg : config) (ds : coll) (ids : list N) : coll * respo
 
 (* ---------------------------------------------------------------- Search / BulkSearch *)
 Definition sview (r : sreq) : search_req := mkSearchReq (q_vec r) (q_k r) (q_ef r) (q_ns r) (q_filter r).
-(* knn_search_*: dimension, then normalize_query_for_search.  (empty / k are re-checked but cannot fail
-   after the validator.)  None = the engine answers *)
-Definition engine_search_err (cfg : config) (r : sreq) : option status :=
+(* knn_search_*: dimension, then normalize_query_for_search (tiered_engine.rs), then the cold tier's own
+   normalize_query_if_needed (hnsw_backend.rs).  A query whose squares overflow is scaled to all-zero by the
+   first and refused as "norm is zero" by the second: on the BATCH path that error fails the group (INTERNAL);
+   on the single-Search path the cold-tier error is absorbed (the answer is OK with the hot-tier results).
+   (empty / k are re-checked but cannot fail after the validator.)  None = the engine answers *)
+Definition engine_search_err (cfg : config) (batch : bool) (r : sreq) : option status :=
   if negb (len (q_vec r) =? c_dim cfg) then Some InvalidArgument     (* "dimension mismatch" -> Validation *)
   else match c_metric cfg with
        | Euclid => None
-       | Cosine => match nsq (q_vec r) with SqTiny => Some Internal | _ => None end
+       | Cosine => match nsq (q_vec r) with
+                   | SqTiny => Some Internal
+                   | SqInf => if batch then Some Internal else None
+                   | _ => None
+                   end
        end.
 Definition h_search (cfg : config) (ds : coll) (r : sreq) : coll * response :=
   if negb (decodable cfg (q_filter r)) then (ds, Refused Internal)
   else match validate_search_request (sview r) with
        | VErr _ => (ds, Refused InvalidArgument)
-       | VOk _ => match engine_search_err cfg r with
+       | VOk _ => match engine_search_err cfg false r with
                   | Some c => (ds, Refused c)
                   | None => (ds, OkSearch)
                   end
@@ -346,11 +353,11 @@ Definition same_group (a b : sreq) : bool :=
    sub-list (in stream order) of the requests that reach the engine and are refused by it. *)
 Definition engine_bad (cfg : config) (x : sreq) : bool :=
   decodable cfg (q_filter x) && v_is_ok (validate_search_request (sview x))
-  && match engine_search_err cfg x with Some _ => true | None => false end.
+  && match engine_search_err cfg true x with Some _ => true | None => false end.
 Fixpoint group_err (cfg : config) (r : sreq) (bad : list sreq) : option status :=
   match bad with
   | [] => None
-  | x :: rest => if same_group r x then engine_search_err cfg x else group_err cfg r rest
+  | x :: rest => if same_group r x then engine_search_err cfg true x else group_err cfg r rest
   end.
 Definition search_item (cfg : config) (bad : list sreq) (r : sreq) : sitem :=
   if negb (decodable cfg (q_filter r)) then SErr Internal           (* "stream error": the message does not decode *)
